@@ -381,7 +381,9 @@ fn main() {
     let args = parse_args();
     let idxs: Vec<u64> = match args.only { Some(i) => vec![i], None => (0..args.n).collect() };
     let cases: Vec<Case> = idxs.iter().map(|i| gen_case(args.seed, *i)).collect();
+    // vcheck gives every shard 900 s of coqc: keep shards at <= 500 cases (~80 s CPU) however large the run is
+    let shards = std::cmp::max(16, (cases.len() + 499) / 500);
     write_cases(&args, "C11",
         "From Coq Require Import NArith List.\nFrom Falcon Require Import Base.Res Graph.C11Check.\nImport ListNotations.",
-        "ck", &cases, 16, serde_json::json!({"exhaustive_prefix": EXHAUSTIVE}));
+        "ck", &cases, shards, serde_json::json!({"exhaustive_prefix": EXHAUSTIVE}));
 }
